@@ -204,6 +204,7 @@ class Evaluator:
         self.trace: list = []
         self.heap: dict = {}              # object id -> {'cls': name, 'attrs': {name: AV}}
         self.functions: dict = {}         # module-level functions callable by bare name: name -> ast.FunctionDef
+        self.class_state: dict = {}       # (class name, attribute) -> AV stored on the class itself while evaluating
         self.class_table: dict = {}       # class name -> {'mro': [names], 'attrs': {name: expr}, 'methods': {name: FunctionDef}}
         self.strict_sets = False          # sets are sets: no duplicates, and their iteration order is not known
         self.classes: dict = {}           # class name -> {method name: ast.FunctionDef} for heap objects of further classes
@@ -389,9 +390,17 @@ class Evaluator:
                 for h in st.handlers:
                     names = None if h.type is None else [getattr(x, 'id', getattr(x, 'attr', '?')) for x in
                                                          (h.type.elts if isinstance(h.type, ast.Tuple) else [h.type])]
-                    if names is None or r.exc in names or 'Exception' in names or 'BaseException' in names:
+                    if self._exc_matches(r.exc, names):
                         self.trace.append(('caught', r.exc))
-                        self.exec_block(h.body, env)
+                        if h.name:
+                            env[h.name] = AV('other', val=('exception', r.exc))
+                        if not hasattr(self, '_handling'):
+                            self._handling = []
+                        self._handling.append(r)
+                        try:
+                            self.exec_block(h.body, env)
+                        finally:
+                            self._handling.pop()
                         break
                 else:
                     raise
@@ -402,8 +411,20 @@ class Evaluator:
                     self.exec_block(st.finalbody, env)
             return
         if isinstance(st, ast.Raise):
+            if st.exc is None and getattr(self, '_handling', None):
+                raise self._handling[-1]             # a bare raise inside a handler
             e = st.exc.func if isinstance(st.exc, ast.Call) else st.exc
             name = getattr(e, 'id', getattr(e, 'attr', '?')) if e is not None else '?'
+            if isinstance(st.exc, ast.Call):
+                # the arguments of the exception are evaluated first: a failure there is the exception that escapes
+                for a_ in list(st.exc.args) + [k_.value for k_ in st.exc.keywords]:
+                    try:
+                        self.ev(a_.value if isinstance(a_, ast.Starred) else a_, env)
+                    except Unknown:
+                        pass
+            if isinstance(e, ast.Name) and e.id in env and env[e.id].kind == 'other' and isinstance(env[e.id].val, tuple) and \
+                    env[e.id].val[0] == 'exception':
+                name = env[e.id].val[1]
             raise AbsRaise(name, 'explicit raise')
         if isinstance(st, ast.Match):
             subj = self.ev(st.subject, env)
@@ -549,6 +570,21 @@ class Evaluator:
         except (TypeError, ValueError, OverflowError, ZeroDivisionError) as e_:
             raise AbsRaise(type(e_).__name__, str(e_))
 
+    def _exc_matches(self, exc: str, names) -> bool:
+        if names is None or exc in names or 'Exception' in names or 'BaseException' in names:
+            return True
+        import builtins
+        be = getattr(builtins, exc, None)
+        for n in names:
+            bn = getattr(builtins, n, None)
+            if isinstance(be, type) and isinstance(bn, type) and issubclass(be, bn):
+                return True
+            if exc in self.class_table and n in self.class_table[exc]['mro']:
+                return True
+            if n in getattr(self, 'exception_bases', {}).get(exc, ()):
+                return True
+        return False
+
     def _args(self, node: ast.Call, env) -> list:
         out = []
         for a in node.args:
@@ -668,6 +704,8 @@ class Evaluator:
 
     def class_lookup(self, cname: str, attr: str):
         for k in self.class_table[cname]['mro']:
+            if (k, attr) in self.class_state:
+                return ('value', self.class_state[(k, attr)], k)
             e = self.class_table.get(k)
             if e is None:
                 continue
@@ -728,6 +766,9 @@ class Evaluator:
             return
         if isinstance(t, ast.Attribute):
             base = self.ev(t.value, env)
+            if self.is_class_value(base):
+                self.class_state[(base.val[1], t.attr)] = v
+                return
             if base.kind != 'obj':
                 raise Unknown('attribute store on a value that is not a modelled object')
             self.obj_attrs(base)[t.attr] = v
@@ -850,6 +891,8 @@ class Evaluator:
                 return env[node.id]
             if node.id in ('True', 'False', 'None'):
                 return const_av({'True': True, 'False': False, 'None': None}[node.id])
+            if node.id in self.class_table:
+                return AV('other', val=('class', node.id))
             mod = getattr(self, 'module_consts', {})
             if node.id in mod:
                 try:
@@ -920,6 +963,8 @@ class Evaluator:
                 hit_ = self.class_lookup(v.val[1], node.attr)
                 if hit_ is None:
                     raise AbsRaise('AttributeError', f'type object {v.val[1]} has no attribute {node.attr}')
+                if hit_[0] == 'value':
+                    return hit_[1]
                 if hit_[0] == 'attr':
                     try:
                         return self.ev(hit_[1], {})
@@ -932,6 +977,8 @@ class Evaluator:
                     return at[node.attr]
                 if v.val[2] in self.class_table and self.class_method(v, node.attr) is None:
                     hit_ = self.class_lookup(v.val[2], node.attr)
+                    if hit_ is not None and hit_[0] == 'value':
+                        return hit_[1]
                     if hit_ is not None and hit_[0] == 'attr':         # a class-level attribute read through the instance
                         try:
                             return self.ev(hit_[1], {})
@@ -1555,9 +1602,12 @@ class Evaluator:
                 recv_ = None
             if recv_ is not None and self.is_class_value(recv_):
                 hit_ = self.class_lookup(recv_.val[1], f.attr)
+                if (hit_ is None or hit_[0] != 'method') and f.attr == '__subclasses__':
+                    return AV('list', items=tuple(AV('other', val=('class', k)) for k, e_ in self.class_table.items()
+                                                  if len(e_['mro']) > 1 and recv_.val[1] in e_.get('bases', e_['mro'][1:2])))
+                if hit_ is not None and hit_[0] == 'value' and hit_[1].kind == 'func':
+                    return self.call_value(hit_[1], self._args(node, env))
                 if hit_ is None or hit_[0] != 'method':
-                    if f.attr == '__subclasses__':
-                        raise Unknown('__subclasses__')
                     raise AbsRaise('AttributeError', f'type object {recv_.val[1]} has no method {f.attr}')
                 res_ = self.call_class_func(hit_[1], AV('other', val=('class', recv_.val[1])), self._args(node, env),
                                             {k.arg: self.ev(k.value, env) for k in node.keywords if k.arg})
